@@ -1,11 +1,11 @@
 \* C03 thorough: pairs of single-component versions, <= 4 characters over
-\* 0 1 9 A a . ~   (2800 strings, 7 840 000 pairs)
+\* 0 1 9 a . ~   (1554 strings, 2 414 916 pairs)
 CONSTANTS
   HashOnString = FALSE
   TildeOrderZero = FALSE
   Epochs <- S_none
   Revs <- S_none
-  UpChars = {48, 49, 57, 65, 97, 46, 126}
+  UpChars = {48, 49, 57, 97, 46, 126}
   MaxUp = 4
   Seps = FALSE
   Triples = FALSE
